@@ -115,6 +115,9 @@ def gen(rng, tier):
     # callbacks that run kernel operations, incl. cancel() and late results, with all canceller kinds
     for _ in range(500 if tier == "quick" else 8000):
         cases.append(K.rand_script_program(rng, rng.randrange(1, 5), rng.randrange(2, 14), cancellers=True, pauses=False))
+    # how a failure is handed to errback must not matter: bare errback() inside an except block, errback(None),
+    # errback(Failure) instead of errback(exc)
+    cases += K.with_errback_forms(cases, rng, 0.35 if tier == "quick" else 0.15)
     # the exact type of a Deferred must not matter: a sample once more with trivial-subclass instances
     cases += K.with_subclasses(cases, rng, 0.08 if tier == "quick" else 0.04)
     # Deferred debugging (defer.setDebugging(True)) must not change anything observable: a sample once more with it on
@@ -130,6 +133,13 @@ def corpus():
         history("acxii", ["none"], ["none"]),          # cancel forwarded to the inner Deferred, late inner results
         history("acxx", ["none"], ["raise", 1]),       # forwarded cancel whose canceller raises: may run again
         history("xx", ["cb", 7], ["none"]),            # canceller fires; second cancel is a no-op
+        # seeded C03-F: after a canceller-less cancel the one late result arrives as an argument-less errback() inside
+        # an except block: ignored; the next one raises
+        {"canc": [["none"], ["none"]], "family": "two", "word": "",
+         "ops": list(PROBE) + [["cancel", 1], ["eb", 1, 1, "bare"], ["eb", 1, 2, "bare"], ["cb", 1, 3]]},
+        {"canc": [["none"], ["none"]], "family": "two", "word": "",
+         "ops": list(PROBE) + [LETTERS["a"], LETTERS["c"], ["cancel", 1], ["eb", 0, 1, "none"], ["eb", 0, 1, "bare"],
+                               ["eb", 0, 2, "failure"]]},
         history("cx", ["nothing"], ["none"]),          # cancel after firing without waiting: no effect
         history3("M1A2x0", ["nothing"]),               # outer waits on a fired middle that waits on pending: 2 levels
         history3("A2M1x00", ["none"]),                 # same, outer fired first; swallowed + rejected late results
@@ -328,7 +338,7 @@ SPEC = Spec(
          "that alphabet + {inner.cancel, inner.errback}; every history with a cancel of length <= 3 (8% of 4, 0.5% of 5; thorough <= 4, 10% of 5, 0.5% of 6) over the "
          "3-level alphabet {outer returns middle, middle returns pending, fire each, cancel each} x 3 (5) cancellers of "
          "the pending Deferred; 500 (10 000) forwarding scenarios (2-5 levels of fired-and-waiting Deferreds, cancel at "
-         "any level, late results); 12% (8%) of all these cases once more under defer.setDebugging(True); 1 200 (10 000) random programs of 3-15 operations over the "
+         "any level, late results); 35% (15%) of the cases containing an errback once more with the failure handed over as bare errback() inside an except block / errback(None) / errback(Failure); 12% (8%) of all these cases once more under defer.setDebugging(True); 1 200 (10 000) random programs of 3-15 operations over the "
          "kernel alphabet without pause/unpause on 1-4 Deferreds.  non-trivial = an AlreadyCalledError, a swallowed result, a "
          "canceller call or a CancelledError occurs; distinct by (case, observation)",
     trusted=["hand-written kernel model coq/Lib/DeferredK.v (tied by this correspondence run only)",
